@@ -59,6 +59,18 @@ CHECKS["C09"] = dict(
     ref="DESIGN.md 5/C09",
     technique="PlusCal/TLA+ model of runner+cache interleavings (TLC) + systematic schedule enumeration of real threads validated by a TLC monitor")
 
+CHECKS["C08"] = dict(
+    engine="faults",
+    text=("FsWrite.tla models the write protocol of a memoizing call (mkdir, object, pointer created/truncated, pointer "
+          "written; data then memento), crashes before every operation, crashes and I/O errors in the middle of pointer "
+          "writes, I/O errors that abandon memoize, and the recovery reads of up to 4 later calls of two functions sharing "
+          "a content key; TLC checks Recovers / PointerImpliesObject / NoPoisonedMemento exhaustively (and finds the "
+          "pinned-commit defect with FixedReader=FALSE). On the real code every mutating filesystem operation of seven "
+          "scenarios is hit with every fault variant (single faults exhaustive, double faults sampled in quick and "
+          "exhaustive in thorough), the process is 'restarted' and follow-up calls are validated by TLC against CrashSafeMon."),
+    ref="DESIGN.md 5/C08", category="fault_enumeration",
+    technique="TLA+ crash/recovery model (TLC) + exhaustive fault enumeration on the real filesystem backend validated by a TLC monitor")
+
 NOT_YET = {
 }
 
@@ -97,6 +109,8 @@ def main():
             "add_only": True,
         },
         "engines": [
+            {"name": "faults", "path": "harness/check_faults.py", "serves_properties": ["C08"],
+             "kind_free_text": "spec/FsWrite.tla + CrashSafeMon, audit-hook/open-proxy fault injector harness/fault_worker.py"},
             {"name": "threads", "path": "harness/check_threads.py", "serves_properties": ["C09"],
              "kind_free_text": "spec/Threads.tla (PlusCal) + SingleFlightMon, deterministic thread scheduler harness/pylib/verif_sched.py"},
             {"name": "store", "path": "harness/check_store.py", "serves_properties": ["C05", "C06", "C07", "C19"],
